@@ -155,6 +155,9 @@ def hash_fingerprint(prog):
     if len(fin) == 1:
         o = tracer(prog, fin[0]).place({"l": 0, "p": []})
         fp["finish_returns_state"] = bool(o) and all(x.kind == "param" and x.proj and x.proj[-1].endswith(".0") for x in o)
+    # which Hasher methods the crate's hasher(s) override: an added `write_usize` / `write_u64` / `write_length_prefix`
+    # changes the hash of every type whose Hash impl uses that method, although `write` itself is untouched
+    fp["hasher_overrides"] = sorted({f.name for f in prog.fns.values() if f.crate == "abyssiniandb" and f.impl_trait == "core::hash::Hasher"})
     hv = prog.fns.get("abyssiniandb::HashValue::hash_value")
     if hv:
         fp["hasher_type"] = sorted({(t.get("gargs") or ["?"])[0] for b, t in hv.calls() if (t.get("callee") or "") == "core::default::Default::default"} |
